@@ -160,30 +160,48 @@ def r2_order(ctx, rep):
            f"`self.ordered_subpages = {ast.unparse(asg[0][1])}` keeps an `index.md` entry: it is merged "
            f"back in front of the listing, so the index page becomes a sub-page of itself (rendered and listed twice)",
            py.nloc(asg[0][0]))
-    # the merged list: user order first, then the listing, duplicates removed
-    it = loop.iter
-    if not isinstance(it, ast.Name):
-        raise AnalysisError(f"get_page_tree: the page loop iterates `{ast.unparse(it)}`, expected a local list")
+    # the merged list: user order first, then the listing, duplicates removed.  The merge expression `A + B` is looked
+    # for in get_page_tree and in the module-level helpers it calls.
+    es = astq.ElemSources(py, "pagetree")
+    hosts = [fn] + [py.functions[f"pagetree.{c.func.id}"] for c in ast.walk(fn) if isinstance(c, ast.Call)
+                    and isinstance(c.func, ast.Name) and f"pagetree.{c.func.id}" in py.functions and c.func.id != fn.name]
     merged = None
-    for _, v in astq.assignments(fn, it.id):
-        for n in ast.walk(v):
+    for h in hosts:
+        binds = {}
+        if h is not fn:
+            call = next(c for c in ast.walk(fn) if isinstance(c, ast.Call) and isinstance(c.func, ast.Name) and c.func.id == h.name)
+            binds = {k: (v, fn, {}) for k, v in astq.bind_args(call, h).items()}
+        hpar = astq.parents_of(h)
+        for n in ast.walk(h):
             if isinstance(n, ast.BinOp) and isinstance(n.op, ast.Add):
-                merged = (v, n)
+                l, r = es.sources(n.left, h, binds), es.sources(n.right, h, binds)
+                if r == {"LISTING"} and l and "?" not in l and not any(x.startswith("param:") for x in l):
+                    merged = (h, n, l, r, hpar)
+    all_src = es.sources(loop.iter, fn)
     if merged is None:
         rep.ob("ordered pages first, rest alphabetical, duplicates removed", False,
-               f"`{it.id}` is never built from the user's ordered_subpage list followed by the directory listing", py.nloc(loop))
+               f"the page list (sources {sorted(all_src)}) is never built as the user's ordered_subpage list followed by the "
+               f"directory listing", py.nloc(loop))
     else:
-        v, add = merged
-        left = astq.expand_locals(add.left, fn)
-        first_user = any("ordered_subpages" in ast.unparse(e) for e in left)
-        second_listing = ast.unparse(add.right) in listing_vars
-        dedup = any(isinstance(c, ast.Call) and call_name(c).split(".")[-1] in ("fromkeys", "unique", "unique_everseen")
-                    for c in ast.walk(v))
-        ok = first_user and second_listing and dedup
+        h, add, l, r, hpar = merged
+        # the user's order is the left operand (possibly narrowed to names that exist: then its sources are the listing)
+        left_txt = " ".join(ast.unparse(x) for x in astq.expand_locals(add.left, h))
+        first_user = "ordered_subpages" in left_txt or any(
+            "ordered_subpages" in ast.unparse(v) for k, (v, _, _) in ({} if h is fn else binds).items()
+            if any(isinstance(x, ast.Name) and x.id == k for e2 in astq.expand_locals(add.left, h) for x in ast.walk(e2))) or \
+            any(isinstance(x, ast.Name) and any("ordered_subpages" in ast.unparse(v) for k, (v, _, _) in binds.items() if k == x.id)
+                for st in ast.walk(h) if isinstance(st, (ast.For, ast.comprehension)) for x in ast.walk(st.iter)) if h is not fn else \
+            "ordered_subpages" in left_txt
+        p2 = hpar.get(add)
+        dedup = False
+        while p2 is not None and not isinstance(p2, ast.stmt):
+            if isinstance(p2, ast.Call) and call_name(p2).split(".")[-1] in ("fromkeys", "unique", "unique_everseen"):
+                dedup = True
+            p2 = hpar.get(p2)
+        ok = first_user and dedup
         rep.ob("ordered pages first, rest alphabetical, duplicates removed", ok,
                "user order + sorted listing, de-duplicated keeping first occurrences" if ok else
-               f"`{ast.unparse(v)[:100]}`: " + ("the user's list does not come first; " if not first_user else "") +
-               ("the directory listing does not follow; " if not second_listing else "") +
+               f"`{ast.unparse(add)[:100]}`: " + ("the user's list does not come first; " if not first_user else "") +
                ("duplicates are not removed (a page named in ordered_subpage appears twice)" if not dedup else ""),
                py.nloc(add))
     # hidden and backup names are skipped before the name is used
